@@ -470,7 +470,7 @@ prop(
     campaigns=[dict(bin="C20", random=dict(quick=600, thorough=12000))],
     level_text=("Generated plans of 2-8 (thorough 24) threads released together: worker threads run 1-3 complete cycles (start a child, write its input in chunks, close stdin, read the echo to the "
                 "end, wait, destroy) on their own children with distinct exit codes; one cycle in three splits into a writer thread and a reader thread on the same handle with payloads of 64 KiB+1 ... "
-                "1 MiB, above the pipe capacity in both directions; one thread in six hammers reproc_strerror and compares with strerror_r. The unmodified library is built with ThreadSanitizer; a "
+                "1 MiB, above the pipe capacity in both directions; one thread in six hammers reproc_strerror and compares with strerror_r; one in five runs whole reproc_run_ex cycles with verifying sinks against an autonomous child; the echo is read with a reproc_read loop, with reproc_drain (a sink that inspects its chunk twice around a yield) or with reproc_poll + reproc_read; cycles end with reproc_wait or reproc_stop. The unmodified library is built with ThreadSanitizer; a "
                 "per-plan generator inserts yields and micro-sleeps at every libc boundary call. Oracles: any ThreadSanitizer report; every child's descriptor table at entry is {0,1,2,exit handle}; "
                 "every child echoes exactly its own bytes, sees end-of-file when its own parent closes stdin (its own report), and every wait returns its own code; strerror strings are per thread."),
     level_note=("This family cannot enumerate interleavings: the claim is 'no race reported and no cross-talk on N generated plans'. ThreadSanitizer's happens-before analysis flags an unsynchronised "
@@ -478,6 +478,6 @@ prop(
     technique="property-based generation of thread plans + ThreadSanitizer race detection + cross-talk invariants from the children's own reports",
     rule=("tape -> thread count, per thread worker/strerror, cycles (payload size, chunk size, reader/writer split), yield level, yield seed. Non-trivial: at least two threads were inside reproc_start "
           "concurrently (measured with an atomic), or a reader/writer pair overlapped. Distinct: hash of the plan."),
-    essential=dict(quick=["concurrent-starts", "four-or-more-concurrent-starts", "reader-writer-overlap", "strerror-threads"]),
+    essential=dict(quick=["concurrent-starts", "four-or-more-concurrent-starts", "reader-writer-overlap", "strerror-threads", "run-threads"]),
     assumptions=["one operation of a kind per child at a time (README, Multithreading)", "REPROC_MULTITHREADED build (pthread_sigmask), as in the pinned baseline"],
 )
